@@ -1,12 +1,168 @@
 import GrinVerif.Drv.Common
-/-! Driver glue for the `tx` domain (line protocol handler). -/
+import GrinVerif.Model.Tx
+/-! Driver glue for the `tx` domain (C12): aggregation, cut-through, de-aggregation,
+block → compact block → hydrate.  Lines (see `harness/src/bin/tx.rs`):
+
+    (every op carries the case number as first argument; it only makes lines distinct)
+    tx keys [ik…] [okp…] [okc…]            -- hash-order tables of a case, indexed by commitment id
+    tx def <i> <offset-hex> <c|f> [ins] [outs] [kers]
+    tx vread <i>                            => ok | err:<VErr>
+    tx agg [i,j,…]                          => ok <off> <c|f> [ins] [outs] [kers] | err:<E>
+    tx aggg g1;g2;…                         => same, or inner-err:<E>
+    tx deagg [mk…] [sub…]                   => same, or mk-err:<E>
+    tx cut [ins] [outs]                     => ok [ins] [outs] [cutins] [cutouts] | err:CutThrough
+    tx cutio [ins] [outcodes]               => same
+    tx block <prevoff-hex> <rout> <rkern> [i,j,…]  => ok <off> <c|f> [ins] [outs] [kers] | err:<E>
+    tx compact <nonce>                      => [outfull] [kernfull] [kernids sorted]
+    tx hydrate <nonce> g1;g2;…              => ok same|diff <off> c [ins] [outs] [kers] | err:<E>
+-/
 namespace GV.Drv.TxD
-open GV GV.Drv
+open GV GV.Drv GV.Tx
 
 structure St where
-  dummy : Unit := ()
+  ik : Array Nat := #[]
+  okp : Array Nat := #[]
+  okc : Array Nat := #[]
+  txs : Array Tx := #[]
+  block : Option Block := none
 
-def handle (st : St) (_args : List String) (_impl : String) : St × Verdict :=
-  (st, .unknown)
+def St.keys (st : St) : Keys where
+  ik := fun c => st.ik.getD c c
+  ok := fun o => if o % 2 == 0 then st.okp.getD (o / 2) o else st.okc.getD (o / 2) o
+  kk := fun k => k / 2
+
+def showErr : Err → String
+  | .cutThrough => "CutThrough"
+  | .secp => "Secp"
+
+def showVErr : VErr → String
+  | .sort => "Sort"
+  | .dup => "Dup"
+  | .cutThrough => "CutThrough"
+  | .outputFeatures => "OutputFeatures"
+  | .kernelFeatures => "KernelFeatures"
+
+def offHex (n : Nat) : String := toHex (beBytes 32 n)
+
+/-- features-and-commit inputs are printed in commitment order (the `Input` hash order is not
+modelled) -/
+def showIns (v2 : Bool) (ins : List Nat) : String :=
+  if v2 then "f " ++ showNatList (sortBy id ins) else "c " ++ showNatList ins
+
+def showTx (t : Tx) : String :=
+  s!"{offHex t.offset} {showIns t.v2 t.inputs} {showNatList t.outputs} {showNatList t.kernels}"
+
+def showBlock (b : Block) : String :=
+  s!"{offHex b.totalOffset} {showIns b.v2 b.inputs} {showNatList b.outputs} {showNatList b.kernels}"
+
+def showRes : Except Err Tx → String
+  | .ok t => "ok " ++ showTx t
+  | .error e => "err:" ++ showErr e
+
+/-- `g1;g2;…` with each group a list literal -/
+def parseGroups (s : String) : Option (List (List Nat)) :=
+  if s == "-" then some [] else (s.splitOn ";").mapM parseNatList
+
+def St.getTxs (st : St) (idx : List Nat) : Option (List Tx) :=
+  idx.mapM (fun i => st.txs[i]?)
+
+/-- aggregate every group; first failing group's error -/
+def aggGroups (K : Keys) : List (List Tx) → Except Err (List Tx)
+  | [] => .ok []
+  | g :: gs =>
+    match aggregate K g with
+    | .error e => .error e
+    | .ok t => match aggGroups K gs with
+      | .error e => .error e
+      | .ok ts => .ok (t :: ts)
+
+def sameBlock (K : Keys) (a b : Block) : Bool :=
+  a.totalOffset == b.totalOffset
+    && (if a.v2 then sortBy K.ik a.inputs else a.inputs) == (if b.v2 then sortBy K.ik b.inputs else b.inputs)
+    && a.outputs == b.outputs && a.kernels == b.kernels
+
+def handle (st : St) (args : List String) (impl : String) : St × Verdict :=
+  let K := st.keys
+  match args with
+  | ["keys", _, a, b, c] =>
+    match parseNatList a, parseNatList b, parseNatList c with
+    | some a, some b, some c =>
+      ({ ik := a.toArray, okp := b.toArray, okc := c.toArray, txs := #[], block := none }, .ok)
+    | _, _, _ => (st, .unknown)
+  | ["def", _, i, off, v, ins, outs, kers] =>
+    match nat? i, parseHex off, parseNatList ins, parseNatList outs, parseNatList kers with
+    | some i, some off, some ins, some outs, some kers =>
+      if i == st.txs.size && (v == "c" || v == "f") then
+        ({ st with txs := st.txs.push ⟨ofBE off, v == "f", ins, outs, kers⟩ }, .ok)
+      else (st, .unknown)
+    | _, _, _, _, _ => (st, .unknown)
+  | ["vread", _, i] =>
+    match (nat? i).bind (fun i => st.txs[i]?) with
+    | some t =>
+      let r := match validateRead K t with
+        | none => "ok"
+        | some e => "err:" ++ showVErr e
+      (st, cmpModel r impl)
+    | none => (st, .unknown)
+  | ["agg", _, idx] =>
+    match (parseNatList idx).bind st.getTxs with
+    | some txs => (st, cmpSpec (showRes (aggregate K txs)) impl)
+    | none => (st, .unknown)
+  | ["aggg", _, gs] =>
+    match (parseGroups gs).bind (fun gs => gs.mapM st.getTxs) with
+    | some groups =>
+      let r := match aggGroups K groups with
+        | .error e => "inner-err:" ++ showErr e
+        | .ok ts => showRes (aggregate K ts)
+      (st, cmpSpec r impl)
+    | none => (st, .unknown)
+  | ["deagg", _, mk, sub] =>
+    match (parseNatList mk).bind st.getTxs, (parseNatList sub).bind st.getTxs with
+    | some mk, some sub =>
+      let r := match aggregate K mk with
+        | .error e => "mk-err:" ++ showErr e
+        | .ok m => showRes (deaggregate K m sub)
+      (st, cmpModel r impl)
+    | _, _ => (st, .unknown)
+  | ["cut", _, ins, outs] =>
+    match parseNatList ins, parseNatList outs with
+    | some ins, some outs =>
+      let r := match cutThrough id id K.ik K.ik ins outs with
+        | .error e => "err:" ++ showErr e
+        | .ok r => s!"ok {showNatList r.ins} {showNatList r.outs} {showNatList r.cutIns} {showNatList r.cutOuts}"
+      (st, cmpSpec r impl)
+    | _, _ => (st, .unknown)
+  | ["cutio", _, ins, outs] =>
+    match parseNatList ins, parseNatList outs with
+    | some ins, some outs =>
+      let r := match cutThrough id outCommit K.ik K.ok ins outs with
+        | .error e => "err:" ++ showErr e
+        | .ok r => s!"ok {showNatList r.ins} {showNatList r.outs} {showNatList r.cutIns} {showNatList r.cutOuts}"
+      (st, cmpSpec r impl)
+    | _, _ => (st, .unknown)
+  | ["block", _, prev, rout, rkern, idx] =>
+    match parseHex prev, nat? rout, nat? rkern, (parseNatList idx).bind st.getTxs with
+    | some prev, some rout, some rkern, some txs =>
+      match fromReward K (ofBE prev) txs rout rkern with
+      | .error e => ({ st with block := none }, cmpModel ("err:" ++ showErr e) impl)
+      | .ok b => ({ st with block := some b }, cmpModel ("ok " ++ showBlock b) impl)
+    | _, _, _, _ => (st, .unknown)
+  | ["compact", _, nonce] =>
+    match nat? nonce, st.block with
+    | some nonce, some b =>
+      let cb := compact K nonce b
+      (st, cmpModel s!"{showNatList cb.outFull} {showNatList cb.kernFull} {showNatList (sortBy id cb.kernIds)}" impl)
+    | _, _ => (st, .unknown)
+  | ["hydrate", _, nonce, gs] =>
+    match nat? nonce, st.block, (parseGroups gs).bind (fun gs => gs.mapM st.getTxs) with
+    | some nonce, some b, some groups =>
+      let r := match aggGroups K groups with
+        | .error e => "inner-err:" ++ showErr e
+        | .ok ts => match hydrateFrom K (compact K nonce b) ts with
+          | .error e => "err:" ++ showErr e
+          | .ok hb => s!"ok {if sameBlock K hb b then "same" else "diff"} {showBlock hb}"
+      (st, cmpSpec r impl)
+    | _, _, _ => (st, .unknown)
+  | _ => (st, .unknown)
 
 end GV.Drv.TxD
